@@ -86,9 +86,17 @@ def _all_isinstance_guard(node):
 def _bind_token(body, var, is_target):
     """what a branch binds the variable of interest to"""
     guard = None
+    listed = False
     for st in body:
         if isinstance(st, ast.If) and _all_isinstance_guard(st) and any(isinstance(x, ast.Raise) for x in st.body):
             guard = _all_isinstance_guard(st)
+            continue
+        # `x = list(x)`: the variable is rebound to a fresh list of its own items (materialising a one-shot iterable
+        # before the type check, fix F-C14-6); a later `target = x` then binds that list: the token `list-self`
+        if (isinstance(st, ast.Assign) and len(st.targets) == 1 and isinstance(st.targets[0], ast.Name) and st.targets[0].id == var
+                and isinstance(st.value, ast.Call) and isinstance(st.value.func, ast.Name) and st.value.func.id == "list"
+                and len(st.value.args) == 1 and not st.value.keywords and isinstance(st.value.args[0], ast.Name) and st.value.args[0].id == var):
+            listed = True
             continue
         if isinstance(st, ast.Raise):
             return "raise"
@@ -99,7 +107,7 @@ def _bind_token(body, var, is_target):
             elif isinstance(v, ast.List) and len(v.elts) == 1 and isinstance(v.elts[0], ast.Name) and v.elts[0].id == var:
                 tok = "singleton"
             elif isinstance(v, ast.Name) and v.id == var:
-                tok = "self"
+                tok = "list-self" if listed else "self"
             elif (isinstance(v, ast.Call) and isinstance(v.func, ast.Name) and v.func.id == "list" and len(v.args) == 1
                   and isinstance(v.args[0], ast.Name) and v.args[0].id == var):
                 tok = "list-self"
